@@ -1,7 +1,7 @@
 (* C10 — Clone groups satisfy the contract of the selected grouping mode.
    Only the property theorems; each is closed by [exact] of a lemma proved in Clone/*.v about the
    models Clone/Group{Connected,Complete,KCore,Star}.v (tied to internal/analyzer/*_grouping.go by
-   Gen/CloneConst.v and by the correspondence check harness/c10.py).
+   Gen/GroupConst.v and by the correspondence check harness/c10.py).
    Spec (Clone/GroupSpec.v): pair graph = list of (fragment, fragment, similarity); G_t joins two
    distinct fragments when some pair between them has similarity >= t; [contract m k t G gs] is the
    property text for mode m: every group has >= 2 distinct members, no fragment is in two groups,
@@ -11,7 +11,7 @@
      k-core   : every member has >= k G_t-neighbours inside its group,
      star     : some member is adjacent to every other member. *)
 From Coq Require Import NArith ZArith QArith List Bool Permutation.
-From PV Require Import Gen.CloneConst Clone.GroupSpec Clone.GroupSpecProofs Clone.GroupSpecKCore Clone.GroupCommon
+From PV Require Import Gen.GroupConst Clone.GroupSpec Clone.GroupSpecProofs Clone.GroupSpecKCore Clone.GroupCommon
   Clone.GroupConnected Clone.GroupComplete Clone.GroupKCore Clone.GroupStar Clone.GroupLattice Clone.GroupRun
   Clone.GroupConnectedProofs Clone.GroupCompleteProofs Clone.GroupKCoreProofs Clone.GroupStarProofs
   Clone.GroupAll Clone.GroupBounded.
